@@ -125,11 +125,14 @@ Definition obj_removed (tn:N) (supports_uq create_or_drop:bool) (k:cons) : list 
   end.
 Definition obj_changed (tn:N) (old new:cons) : list op := [OpDropCons tn (is_ix old) (k_name old); OpAddCons tn new].
 
+(* _uq_constraint_sig.unnamed: the sorted tuple of column names *)
+Definition conn_uq_sigs (c:table) : list (list N) := map k_cols (filter is_uq (t_cons c)) ++ map u_cols (t_uuqs c).
 Definition compare_indexes_and_uniques (tn:N) (conn_table metadata_table:option table) : list op :=
   let is_create_table := match conn_table with None => true | Some _ => false end in
   let is_drop_table := match metadata_table with None => true | Some _ => false end in
   let cod := is_create_table || is_drop_table in
   let metadata_cons := match metadata_table with Some m => t_cons m | None => [] end in
+  let unnamed_metadata_uniques := match metadata_table with Some m => t_uuqs m | None => [] end in
   (* inspector.get_unique_constraints works on SQLite whenever there is a reflected table *)
   let supports_unique_constraints := negb is_create_table in
   let conn_cons := match conn_table with
@@ -138,6 +141,8 @@ Definition compare_indexes_and_uniques (tn:N) (conn_table metadata_table:option 
                    end in
   (* removed names *)
   flat_map (fun ck => if memN (k_name ck) (keys k_name metadata_cons) then []
+                      (* a reflected unique constraint that matches an unnamed metadata one by signature stays *)
+                      else if is_uq ck && existsb (fun u => permb (k_cols ck) (u_cols u)) unnamed_metadata_uniques then []
                       else obj_removed tn supports_unique_constraints cod ck) conn_cons
   (* existing names *)
   ++ flat_map (fun mk => match kfind k_name (k_name mk) conn_cons with
@@ -149,7 +154,13 @@ Definition compare_indexes_and_uniques (tn:N) (conn_table metadata_table:option 
                          end) metadata_cons
   (* added names *)
   ++ flat_map (fun mk => if memN (k_name mk) (keys k_name conn_cons) then []
-                         else obj_added tn supports_unique_constraints cod mk) metadata_cons.
+                         else obj_added tn supports_unique_constraints cod mk) metadata_cons
+  (* unnamed metadata unique constraints whose signature no reflected unique constraint (named or not) has: obj_added, which
+     returns at once for CREATE / DROP TABLE.  Reflected unnamed unique constraints are never removed. *)
+  ++ match conn_table, metadata_table with
+     | Some c, Some m => flat_map (fun u => if existsb (permb (u_cols u)) (conn_uq_sigs c) then [] else [OpAddUUq tn u]) (t_uuqs m)
+     | _, _ => []
+     end.
 
 (* ---------------------------------------------------------------- _compare_foreign_keys *)
 (* _fk_constraint_sig._sig: (source table, source columns, target table, target columns) + (onupdate, ondelete, a
@@ -188,7 +199,7 @@ Definition compare_foreign_keys (tn:N) (conn_table metadata_table:option table) 
 
 (* ---------------------------------------------------------------- _compare_tables *)
 (* CreateTableOp.from_table carries the columns, the inline UNIQUE constraints and the foreign keys; indexes follow *)
-Definition create_table_of (m:table) : table := mkTable (t_name m) (t_cols m) (filter is_uq (t_cons m)) (t_fks m).
+Definition create_table_of (m:table) : table := mkTable (t_name m) (t_cols m) (filter is_uq (t_cons m)) (t_fks m) (t_uuqs m).
 
 (* (_compare_foreign_keys is dispatched for added and removed tables too and returns at once: conn_table or metadata_table is None) *)
 Definition added_table (m:table) : list op :=
